@@ -98,9 +98,70 @@ def derive_closure(chk, facts, cfg):
         for x in serde_field_attrs(a, getattr(facts, "repo", None)):
             if not any(x.strip('#[] ') in y or y in x for y in attrs):
                 attrs.append(x)
-        chk.ob('%s:attrs:%s[%s]' % (PID, p, cfg), 'derive-closure', '%s has no serde attribute that skips, defaults or redirects a field' % p,
+        # attributes that cannot lose data in a round trip (the field is still written and read back; only the names on
+        # the wire, the bounds of the impls or the treatment of inputs that lack / add fields change) are accepted
+        attrs = [x for x in attrs if not round_trip_neutral(x)]
+        chk.ob('%s:attrs:%s[%s]' % (PID, p, cfg), 'derive-closure', '%s has no serde attribute that skips or redirects a field or changes the shape of the representation' % p,
                not attrs, 'attributes found: %s' % attrs if attrs else '', '%s:%s' % (a['span'][0], a['span'][1]))
     chk.floor('serialisable-types[%s]' % cfg, len(seen), 9)
+
+
+NEUTRAL_SERDE = {'default', 'rename', 'rename_all', 'rename_all_fields', 'alias', 'bound', 'deny_unknown_fields', 'crate', 'expecting'}
+
+
+def round_trip_neutral(text):
+    """every item of every serde(...) list in the attribute text is one of NEUTRAL_SERDE"""
+    import re
+    bodies = []
+    i = 0
+    while True:
+        j = text.find('serde', i)
+        if j < 0:
+            break
+        k = j + 5
+        while k < len(text) and text[k] == ' ':
+            k += 1
+        if k >= len(text) or text[k] != '(':
+            i = j + 5
+            continue
+        depth, e = 0, k
+        while e < len(text):
+            if text[e] == '(':
+                depth += 1
+            elif text[e] == ')':
+                depth -= 1
+                if depth == 0:
+                    break
+            e += 1
+        if depth != 0:
+            return False
+        bodies.append(text[k + 1:e])
+        i = e
+    if not bodies:
+        return False
+    for b in bodies:
+        items, depth, cur, instr = [], 0, '', False
+        for ch in b:
+            if ch == '"':
+                instr = not instr
+            if not instr and ch in '([':
+                depth += 1
+            elif not instr and ch in ')]':
+                depth -= 1
+            if ch == ',' and depth == 0 and not instr:
+                items.append(cur)
+                cur = ''
+            else:
+                cur += ch
+        items.append(cur)
+        for it in items:
+            it = it.strip()
+            if not it:
+                continue
+            m = re.match(r'[A-Za-z_][A-Za-z0-9_]*', it)
+            if not m or m.group(0) not in NEUTRAL_SERDE:
+                return False
+    return True
 
 
 def compiler_serde_attrs(adt, facts):
